@@ -159,8 +159,13 @@ macro_rules! harness {
                     }
                 }
                 if let Some(a) = aux.as_mut() {
+                    // `==` is structural (it also counts emptied tables, which clone_from keeps in the destination), so only
+                    // the contents are compared here
                     a.clone_from(&w);
-                    assert!(*a == w);
+                    assert_eq!(a.len(), w.len());
+                    for id in &ids {
+                        assert!(a.contains(*id));
+                    }
                 }
             }
         }
